@@ -1,5 +1,7 @@
 //! One monitor per property; dispatch by property id.
 pub mod c09;
+pub mod c10;
+pub mod c11;
 pub mod c14;
 pub mod c15;
 pub mod rules;
@@ -17,6 +19,8 @@ pub fn run_check(prop: &str, tier: Tier, seed: u64) -> i32 {
     match prop {
         "C07" => search::run_c07(tier, seed),
         "C09" => c09::run(tier, seed),
+        "C10" => c10::run(tier, seed),
+        "C11" => c11::run(tier, seed),
         "C12" => search::run_c12(tier, seed),
         "C14" => c14::run(tier, seed),
         "C15" => c15::run(tier, seed),
